@@ -143,6 +143,19 @@ pub fn oracle_c06(s: &Sentence, m: &AbsModel, fails: &mut Vec<(String, String)>)
             return Err(format!("n_tags {} != widest tag model {}", s.n_tags(), n_tags));
         }
         let toks: Vec<(usize, usize)> = s.iter_tokens().map(|t| (t.start(), t.end())).collect();
+        // "tokens without a tag model carry no tags", and neither does anything that is not a token: right after
+        // fill_tags() every tag slot that is not the row of a token's last character is empty
+        let n_chars = s.boundaries().len() + 1;
+        if s.tags().len() != n_chars * n_tags {
+            return Err(format!("{} tag slots for {n_chars} characters x {n_tags} categories", s.tags().len()));
+        }
+        for i in 0..n_chars {
+            if !toks.iter().any(|&(_, en)| en == i + 1) {
+                if let Some(t) = s.tags()[i * n_tags..(i + 1) * n_tags].iter().flatten().next() {
+                    return Err(format!("after fill_tags() character {i}, which is not the last character of a token, carries the tag {t:?}"));
+                }
+            }
+        }
         let mut it = s.iter_tokens();
         for (st, en) in toks {
             let tok = it.next().unwrap();
